@@ -163,6 +163,16 @@ impl UtxoModel {
                                 format!("tx {tx_id:x} (index {idx}, height {height}) spends message {n:x} which is not unspent"),
                             ));
                         };
+                        let same = Some(m.amount()) == input.amount()
+                            && Some(m.sender()) == input.sender()
+                            && Some(m.recipient()) == input.recipient()
+                            && m.data().as_slice() == input.input_data().unwrap_or(&[]);
+                        if !same {
+                            return Err((
+                                "spent_message_differs_from_input".into(),
+                                format!("tx {tx_id:x} spends message {n:x} = {m:?} but its input says {input:?}"),
+                            ));
+                        }
                         if m.da_height() > da {
                             return Err((
                                 "message_spent_before_its_da_height".into(),
